@@ -170,6 +170,7 @@ func (r *LayerManager) getLayer(ctx context.Context, refspec reference.Spec, toc
 	for _, l := range manifest.Layers {
 
 		// Resolve the layer
+		verifResolveSpawned() // no-op unless built with -tags verif
 		wg.Go(func() {
 			// Avoids to get canceled by client.
 			ctx := context.Background()
@@ -219,6 +220,7 @@ func (r *LayerManager) getLayer(ctx context.Context, refspec reference.Spec, toc
 
 func (r *LayerManager) resolveLayer(ctx context.Context, refspec reference.Spec, target ocispec.Descriptor) (retErr error) {
 	key := refspec.String() + "/" + target.Digest.String()
+	defer verifResolveFinished() // no-op unless built with -tags verif
 
 	// Wait if resolving this layer is already running.
 	r.resolveLock.Lock(key)
